@@ -41,6 +41,53 @@ def encode_item(F):
     return it, insts[0]
 
 
+_CALL_SHAPE = {}
+
+
+def call_shape(F):
+    """The argument list of `encode`, as makers: `compile` is evaluated once with `encode` intercepted, and the rules
+    then call `encode` the way `compile` does, replacing grouping, superposition, pattern and tree.  With the four
+    parameters of the pinned tree this is just their order; a further parameter (state threaded through the
+    recursion, e.g. the case flag in force) starts with the value `compile` gives it."""
+    if F.path in _CALL_SHAPE:
+        return _CALL_SHAPE[F.path]
+    from .. import models
+    it, inst = encode_item(F)
+    n = len(F.bodies[it.key]["thir"]["params"])
+    shape = ["grouping", "superposition", "pattern", "tree"] if n == 4 else None
+    if shape is None:
+        comp = F.find("encode::compile")
+        insts = F.instances_of(comp, "token::Token<'_, ()>") or F.instances_of(comp)
+        seen = []
+
+        def rec(I, a, fn, e):
+            seen.append(list(a))
+            return UNIT
+        I = Interp(F, {"encode::encode": rec, "regex::Regex::new": lambda I, a, fn, e: Sym("regex-result")})
+        tree = T.branch("cat", [T.leaf("lit", "probe")], "top")
+        I.explore(lambda: I.call_item(comp, [Ref(Place(Cell(tree)))], inst=insts[0] if insts else None))
+        if seen and len(seen[0]) == n:
+            shape = []
+            for a in seen[0]:
+                v = strip(a)
+                if isinstance(v, Adt) and v.path == GROUPING and "grouping" not in shape:
+                    shape.append("grouping")
+                elif isinstance(v, Adt) and v.path == "std::option::Option" and v.variant == "None" and not isinstance(a, Ref) and "superposition" not in shape:
+                    shape.append("superposition")
+                elif isinstance(a, Ref) and isinstance(v, (StrB, str)) and "pattern" not in shape:
+                    shape.append("pattern")
+                elif isinstance(v, Adt) and v.path == T.TOKEN and "tree" not in shape:
+                    shape.append("tree")
+                elif isinstance(a, Ref):
+                    shape.append(lambda v=v: Ref(Place(Cell(models.deep_copy(v)))))
+                else:
+                    shape.append(lambda v=v: models.deep_copy(v))
+            if not all(k in shape for k in ("grouping", "superposition", "pattern", "tree")):
+                shape = None
+    _CALL_SHAPE[F.path] = shape
+    return shape
+
+
 def position_value(p):
     return none() if p is None else some(Adt(POSITION, p, {}))
 
@@ -84,8 +131,12 @@ def emit(F, grouping, superposition, toks, stubs=None, fuel=None):
         pat = StrB()
         holder = Cell(pat)
         I.top_pattern = pat
-        res = I.call_item(it, [Adt(GROUPING, grouping, {}), position_value(superposition), Ref(Place(holder)),
-                               Ref(Place(Cell(tree)))], inst=inst)
+        shape = call_shape(F)
+        if shape is None:
+            return Top("the way compile calls encode could not be determined (parameters of encode changed)")
+        known = {"grouping": Adt(GROUPING, grouping, {}), "superposition": position_value(superposition),
+                 "pattern": Ref(Place(holder)), "tree": Ref(Place(Cell(tree)))}
+        res = I.call_item(it, [known[k] if isinstance(k, str) else k() for k in shape], inst=inst)
         if isinstance(res, (Top, Panicked)):
             return res
         return holder.v
